@@ -81,12 +81,12 @@ class C05(Property):
         "sets on the inputs of grouping steps, distinct tags per port, prefix-antichain inputs for dot products",
         "no failures, no recovery, no loops in the generated workflows",
     ]
-    quick_budget_s = 420
+    quick_budget_s = 600
     thorough_budget_s = 2400
     min_nontrivial = 10
 
     def _plan(self, ctx: Ctx):
-        n, k = (250, 8) if ctx.tier == "thorough" else (45, 3)
+        n, k = (250, 8) if ctx.tier == "thorough" else (40, 3)
         if ctx.mode == "search":
             n, k = n, 16
         return n, k
@@ -100,8 +100,8 @@ class C05(Property):
             if ctx.out_of_time():
                 ctx.extra["incomplete"] = True
                 break
-            if i >= 25 and ctx.tier == "quick" and ctx.time_left() < 0.45 * self.quick_budget_s:
-                # heavily loaded machine: the plan is "up to n workflows", at least 25 (the corpus included)
+            if i >= 20 and ctx.tier == "quick" and ctx.time_left() < 0.5 * self.quick_budget_s:
+                # heavily loaded machine: the plan is "up to n workflows", at least 20 (the corpus included)
                 ctx.notes.append(f"soft time limit: stopped after {i} of {n} planned workflows")
                 break
             if i < len(wfgen.CORPUS):
